@@ -208,6 +208,19 @@ def json_values(depth):
     return st.one_of(json_leaves, st.lists(sub, max_size=4), st.dictionaries(json_strings, sub, max_size=4))
 
 
+def big_docs(seed, part):
+    import random
+    rnd = random.Random(seed * 2 + part)
+    docs = []
+    for n in (255, 256, 300, 1000):
+        xs = [rnd.choice([0.5, 1e16, 3e22, -4e300, 123.0, 1e21, 2.0 ** 60, 295.25, float(rnd.randint(-5, 5)), 1e-7]) for _ in range(n)]
+        docs.append(('float-array-%d' % n, xs))
+        docs.append(('mixed-array-%d' % n, xs[:n // 2] + ['a\\', None, True] + xs[n // 2:]))
+    rows = [{'amount': 0.5 + i, 'id': float(i), 'note': rnd.choice(['x\\', 'plain', 'q"uote', 'NaN', '']), 'tags': ['a', 'b\\']} for i in range(17000 if part else 9000)]
+    docs.append(('megabyte-document', {'folder': 'C:\\data\\exports\\', 'rows': rows, 'z\\': [1e16, 'end']}))
+    return docs
+
+
 def share_subvalue(v, seed):
     """Make one container of v appear a second time elsewhere in v - the SAME object, not a copy (a value built by a script that stores one
     array / object in two places). The value stays acyclic: the second place is never inside the shared container."""
@@ -242,6 +255,7 @@ def plan(tier):
     specs = [{'kind': 'punct', 'part': i, 'parts': parts} for i in range(parts)]
     k = 8 if tier == 'quick' else 16
     specs += [{'kind': 'hyp', 'n': 3000 if tier == 'quick' else 40000, 'k': i} for i in range(k)]
+    specs += [{'kind': 'big', 'part': i} for i in range(2)]
     return specs
 
 
@@ -260,6 +274,24 @@ def run_shard(ctx, spec):
                     ctx.case(digest(name + '|' + s + '|' + repr(indent)), interesting_string(s) or name == 'num-neighbours',
                              ['punct-' + name], {'value': v, 'indent': indent})
         ctx.exhaustive['all strings of length <= 4 over {a . 0 , ] }} x 7 embeddings x indent {none,2}'] = True
+        return
+
+    if spec['kind'] == 'big':
+        # size thresholds: long arrays of numbers, documents of a megabyte and more (with strings ending in a backslash, whole numbers in
+        # exponent form, every indent)
+        docs = big_docs(ctx.seed, spec['part'])
+        for name, v in docs:
+            for indent in ((None, 2.0) if name == 'megabyte-document' else (None, 1.0, 4)):
+                if (len(name) + (indent or 0)) % 2 != spec['part'] and name != 'megabyte-document':
+                    continue
+                try:
+                    text = check_value(v, indent, seen)
+                except Violation as e:
+                    e.detail = {'kind': 'big', 'name': name, 'indent': indent, 'part': spec['part'], 'seed': ctx.seed}
+                    ctx.violation(e)
+                    text = ''
+                ctx.case(digest([name, indent, spec['part']]), True, ['big:' + name.rsplit('-', 1)[0], 'indent' if indent else 'compact', 'text>=1MiB' if len(text) >= 1 << 20 else 'text<1MiB'],
+                         {'name': name, 'indent': indent, 'length': len(text)})
         return
 
     def prop(v, indent, share):
@@ -282,6 +314,10 @@ def run_shard(ctx, spec):
 
 
 def replay(detail):
+    if detail.get('kind') == 'big':
+        v = dict(big_docs(detail['seed'], detail['part']))[detail['name']]
+        check_value(v, detail['indent'], {})
+        return
     v = dec(detail['v'])
     if detail.get('share'):
         v = dec(detail['tree'])
